@@ -389,6 +389,8 @@ class NestedAdapter:
     part = "nested"
     module = "Nested_mc"
     actions = ("Descend", "MoveAny", "Ascend", "BadIndex")
+    # BadIndex asks the innermost AXIAL grid for a negative index (theta-R-Z is never innermost below level 1 ... it can
+    # be innermost at depth 1, where the spec does not enable BadIndex because its kind is "trz")
 
     def __init__(self):
         armi_ready()
@@ -452,10 +454,14 @@ class NestedAdapter:
             c.true(f + ".parented", loc.parentLocation is None or loc.parentLocation is w["objs"][l - 1].spatialLocator,
                    "parentLocation is not the locator of the grid's owner")
             c.eq(f + ".idx", e["idx"], ints((loc.i, loc.j, loc.k)))
-            c.vec(f + ".local", vec_cm(e["local"]), scale, call(loc.getLocalCoordinates), call(g.getCoordinates, tuple(e["idx"])))
+            c.vec(f + ".local", vec_cm(e["local"]), scale, call(loc.getLocalCoordinates), call(g.getCoordinates, tuple(e["idx"])),
+                  call(loc.getLocalCoordinates, nativeCoords=False))
             c.vec(f + ".global", vec_cm(e["global"]), scale, call(loc.getGlobalCoordinates))
-            c.vec(f + ".gbase", vec_cm(e["gbase"]), scale, call(loc.getGlobalCellBase))
-            c.vec(f + ".gtop", vec_cm(e["gtop"]), scale, call(loc.getGlobalCellTop))
+            ang = lambda v3, a: [v3[0] + a * EIGHTH, v3[1], v3[2]]  # noqa: E731  angle part of theta-R-Z native vectors
+            c.vec(f + ".gnative", ang(vec_cm(e["gnative"]), e["gnativeAng"]), scale,
+                  call(loc.getGlobalCoordinates, nativeCoords=True), call(loc.getGlobalCoordinates, True))
+            c.vec(f + ".gbase", ang(vec_cm(e["gbase"]), e["gbaseAng"]), scale, call(loc.getGlobalCellBase))
+            c.vec(f + ".gtop", ang(vec_cm(e["gtop"]), e["gtopAng"]), scale, call(loc.getGlobalCellTop))
             ci = call(loc.getCompleteIndices)
             c.eq(f + ".complete", e["complete"], ci if isinstance(ci, str) else ints(ci))
             rpos = call(loc.getRingPos)
@@ -607,7 +613,7 @@ CFG = {  # part -> (exhaustive cfg, emission cfg) per tier
 }
 PARTS = {"quick": ["hex", "cart", "nested", "reduce"], "thorough": ["hex", "cart", "nested", "reduce", "reduce2"]}
 MAX_EDGES = {"quick": {"hex": None, "cart": None, "nested": 8000, "reduce": 6000},
-             "thorough": {"hex": None, "cart": None, "nested": None, "reduce": None, "reduce2": 20000}}
+             "thorough": {"hex": None, "cart": None, "nested": 40000, "reduce": None, "reduce2": 20000}}
 
 
 # ------------------------------------------------------------------------------------------------------------
@@ -1152,6 +1158,36 @@ def _mutants():
             self._unitSteps, self._bounds, _off, self._backup = self._backup
         return f
     mutant("StructuredGrid.restoreBackup: offset not restored", ["reduce"], SG, "restoreBackup", m28)
+
+    # 29 (third seeding round) axial-only decided on the number of CELLS: a one-cell axial grid is no longer axial-only
+    def m29(orig):
+        def f(self, *a, **k):
+            orig(self, *a, **k)
+            (_ii, iLen), (_ji, jLen), (_ki, kLen) = self.getIndexBounds()
+            if self._bounds[2] is not None:
+                kLen -= 1
+            self._isAxialOnly = iLen == jLen == 1 and kLen > 1
+        return f
+    mutant("StructuredGrid.__init__: axial-only needs more than one cell", ["nested"], SG, "__init__", m29)
+
+    # 30 (third round) nativeCoords not forwarded to the parent locator
+    def m30(orig):
+        def f(self, nativeCoords=False):
+            pl = self.parentLocation
+            if pl:
+                return self.getLocalCoordinates(nativeCoords=nativeCoords) + pl.getGlobalCoordinates()
+            return self.getLocalCoordinates(nativeCoords=nativeCoords)
+        return f
+    mutant("IndexLocation.getGlobalCoordinates: nativeCoords not passed up", ["nested"], IL, "getGlobalCoordinates", m30)
+
+    # 31 (third round) a pitch change below 1e-4 relative is skipped
+    def m31(orig):
+        def f(self, newPitchCm):
+            if math.isclose(newPitchCm, self.pitch, rel_tol=1e-4):
+                return
+            orig(self, newPitchCm)
+        return f
+    mutant("HexGrid.changePitch: small changes skipped", ["reduce"], HexGrid, "changePitch", m31)
 
     # 20 global cell base uses the parent's centre
     def m20(orig):
